@@ -199,7 +199,11 @@ def run(ck):
             if b.startswith("OK "):
                 nontrivial += 1
             tags[tag] = tags.get(tag, 0) + 1
-        feats = features(vlib.parse_val(prog)) | features(vlib.parse_val(e))
+        pvv = vlib.parse_val(prog)
+        feats = features(pvv)
+        if uses_apply(pvv):
+            # only `a` can run data taken from the environment
+            feats = feats | features(vlib.parse_val(e))
         if a != b:
             kid = None
             for k in ck.open_findings():
@@ -213,7 +217,7 @@ def run(ck):
                 direct.append({"clause": "stepping evaluator and consensus evaluator disagree", "program": prog, "env": e, "spelling": sp, "rich_program": l.split("\t")[2][:300],
                                "stepper": s[:200], "consensus": c[:200], "features": sorted(feats)})
         # correspondence: model stepper vs implementation, on inputs free of the lenient features and in the converted spelling
-        if sp == "converted" and not feats:
+        if sp == "converted" and not feats and not uses_unmodelled(prog):
             m = mres.get("mstep\t%s\t%s" % (prog, e))
             if m is not None and not m.startswith(("OOF", "BADOP")):
                 if norm(m) != a:
@@ -248,6 +252,20 @@ def run(ck):
         elif corr or tie:
             ck.violation({"kind": "correspondence-broken", "broken": "C06 tie: compiler/clvm.rs stepper vs Step/Stepper.v (or clvmr vs Clvm/Eval.v)",
                           "disagreements": (corr + tie)[:10]}, no_input=True)
+
+
+def uses_apply(v):
+    st = [v]
+    while st:
+        x = st.pop()
+        if isinstance(x, tuple):
+            if isinstance(x[0], bytes) and len(x[0]) >= 1 and int.from_bytes(x[0], "big", signed=True) == 2:
+                return True
+            if x[0] == b"a":
+                return True
+            st.append(x[0])
+            st.append(x[1])
+    return False
 
 
 MODELLED = {b"\x01", b"\x02", b"\x03", b"\x04", b"\x05", b"\x06", b"\x07", b"\x08", b"\x09", b"\x0a", b"\x0d", b"\x0e", b"\x10", b"\x11", b"\x12", b"\x13", b"\x14", b"\x15", b"\x20", b"\x21", b"\x22"}
